@@ -42,13 +42,13 @@ theorem AllOK.suffix {s : View} {indices seeds : List Nat} :
 
 theorem AllOK.mem {s : View} {indices seeds : List Nat} :
     ∀ {acc : List TravItem}, AllOK s indices seeds acc → ∀ w ∈ acc,
-      ∃ pre, (∀ u ∈ pre, u ∈ acc) ∧ ItemOK s indices seeds pre w
+      ∃ pre, (∀ u ∈ pre, u ∈ acc) ∧ ItemOK s indices seeds pre w ∧ AllOK s indices seeds pre
   | [], _, w, hw => by cases hw
   | t :: acc, h, w, hw => by
     rcases List.mem_cons.1 hw with rfl | hw
-    · exact ⟨acc, fun u hu => List.mem_cons_of_mem _ hu, h.1⟩
-    · obtain ⟨pre, hsub, hok⟩ := AllOK.mem h.2 w hw
-      exact ⟨pre, fun u hu => List.mem_cons_of_mem _ (hsub u hu), hok⟩
+    · exact ⟨acc, fun u hu => List.mem_cons_of_mem _ hu, h.1, h.2⟩
+    · obtain ⟨pre, hsub, hok, hpre⟩ := AllOK.mem h.2 w hw
+      exact ⟨pre, fun u hu => List.mem_cons_of_mem _ (hsub u hu), hok, hpre⟩
 
 theorem IsTarget.of_subset {pre acc : List TravItem} (hsub : ∀ u ∈ pre, u ∈ acc) {e : Nat}
     (h : IsTarget pre e) : IsTarget acc e := by
@@ -87,7 +87,7 @@ theorem target_closed {s : View} (h : s.PInvol) {indices seeds : List Nat} {acc 
   | refl => exact hd
   | @step e c k _ hk hop ih =>
     obtain ⟨w, hw, hwk, hwe⟩ := hcl e ih k hk
-    obtain ⟨pre, hsub, hok⟩ := hall.mem w hw
+    obtain ⟨pre, hsub, hok, _⟩ := hall.mem w hw
     obtain ⟨_, hdi, htgt⟩ := hok.edge k hwk
     rcases hwe with hwe | hwe
     · refine ⟨w, hw, ?_⟩
@@ -113,8 +113,8 @@ theorem starts_pairwise {s : View} (h : s.PInvol) {indices seeds : List Nat} :
   | t' :: acc, hall => by
     refine List.Pairwise.cons ?_ (starts_pairwise h hall.2)
     intro t ht hn hn' hr
-    obtain ⟨_, _, hcl⟩ := hall.1.start hn'
-    obtain ⟨pre, hsub, hok⟩ := hall.2.mem t ht
+    obtain ⟨_, _, hcl, _⟩ := hall.1.start hn'
+    obtain ⟨pre, hsub, hok, _⟩ := hall.2.mem t ht
     have htd : IsTarget acc t.2.1 := ⟨t, ht, (hok.start hn).1⟩
     have := target_closed h hall.2 hcl htd hr
     apply hall.1.fresh
@@ -130,7 +130,7 @@ theorem edges_pairwise {s : View} (h : s.PInvol) {indices seeds : List Nat} :
   | t' :: acc, hall => by
     refine List.Pairwise.cons ?_ (edges_pairwise h hall.2)
     intro t ht i hi hi'
-    obtain ⟨pre, _, hok⟩ := hall.2.mem t ht
+    obtain ⟨pre, _, hok, _⟩ := hall.2.mem t ht
     obtain ⟨_, hdi, _⟩ := hok.edge i hi
     obtain ⟨_, hdi', _⟩ := hall.1.edge i hi'
     have hfresh := hall.1.fresh
@@ -224,7 +224,7 @@ theorem AllOK.length_le {s : View} (hr : ∀ i d e, s.op i d = some e → 1 ≤ 
     · cases hmi : t.1 with
       | none => exact List.mem_cons_self
       | some i =>
-        obtain ⟨pre, _, hok⟩ := h.mem t ht
+        obtain ⟨pre, _, hok, _⟩ := h.mem t ht
         exact List.mem_cons_of_mem _ (List.mem_map.2 ⟨i, (hok.edge i hmi).1, rfl⟩)
   have := (h.pairs_nodup.subperm hsub).length_le
   rw [List.length_map, List.length_product] at this
@@ -299,5 +299,71 @@ theorem TInv.final {s : View} {indices seeds : List Nat} {acc : List TravItem} {
     rw [hex.2, List.append_nil] at hpre
     rw [hpre] at hd
     exact (seenIn_none_iff inv.allOK d).1 (hall d hd)
+
+/-! ### `is_connected` -/
+
+theorem elements_sorted (s : View) : s.elements.Pairwise (· < ·) := by
+  unfold View.elements
+  rw [List.pairwise_map]
+  exact List.pairwise_lt_range.imp (fun h => Nat.succ_lt_succ h)
+
+/-- a start item other than chamber 1 means chamber 1's component is finished without it -/
+theorem start_gt_one {s : View} (h : s.PInvol) {indices : List Nat} {acc : List TravItem}
+    (hall : AllOK s indices s.elements acc) {t : TravItem} (ht : t ∈ acc) (hn : t.1 = none)
+    (hgt : t.2.1 > 1) : ¬ s.Reach indices 1 t.2.1 := by
+  intro hr
+  obtain ⟨pre, hsub, hok, hpre⟩ := hall.mem t ht
+  obtain ⟨_, hseed, hcl, l1, l2, hsplit, hl1⟩ := hok.start hn
+  have hsorted := elements_sorted s
+  have h1mem : 1 ∈ s.elements := by
+    have := (mem_elements s t.2.1).1 hseed
+    exact (mem_elements s 1).2 ⟨Nat.le_refl _, by omega⟩
+  rw [hsplit] at hsorted h1mem
+  have h1l1 : 1 ∈ l1 := by
+    rcases List.mem_append.1 h1mem with h1 | h1
+    · exact h1
+    · rcases List.mem_cons.1 h1 with h1 | h1
+      · omega
+      · have := (List.pairwise_cons.1 (List.pairwise_append.1 hsorted).2.1).1 1 h1
+        omega
+  have := target_closed h hpre hcl (hl1 1 h1l1) hr
+  apply hok.fresh
+  rw [hn]
+  exact (seenIn_none_iff hpre _).2 this
+
+/-- `is_connected()` holds iff every chamber is reachable from chamber 1 -/
+theorem isConnected_iff {s : View} (h : s.PInvol) :
+    s.isConnected = true ↔ ∀ d, 1 ≤ d → d ≤ s.size → s.Reach s.indices 1 d := by
+  obtain ⟨acc, st', hacc, inv, hex⟩ := traversal_run h.range s.indices s.elements
+  have hfin := inv.final hex
+  have hall := inv.allOK
+  unfold View.isConnected View.fullTraversal
+  rw [hacc, List.all_eq_true]
+  constructor
+  · intro hc d h1 h2
+    obtain ⟨t, ht, hte⟩ := hfin.2 d ((mem_elements s d).2 ⟨h1, h2⟩)
+    obtain ⟨u, hu, hu1, hu2, _, hu4⟩ := hall.reach t ht
+    have := hc u (List.mem_reverse.2 hu)
+    obtain ⟨mi, ud, udi⟩ := u
+    simp only at hu1 hu2 hu4 this
+    subst hu1
+    simp only [Option.isNone_none, Bool.true_and, Bool.not_eq_eq_eq_not, Bool.not_true,
+      decide_eq_false_iff_not] at this
+    have := (mem_elements s ud).1 hu2
+    have hud : ud = 1 := by omega
+    rw [hud, hte] at hu4; exact hu4
+  · intro hr t ht
+    have ht' := List.mem_reverse.1 ht
+    obtain ⟨mi, d, di⟩ := t
+    cases mi with
+    | some i => simp
+    | none =>
+      simp only [Option.isNone_none, Bool.true_and, Bool.not_eq_eq_eq_not, Bool.not_true,
+        decide_eq_false_iff_not]
+      intro hgt
+      obtain ⟨pre, _, hok, _⟩ := hall.mem _ ht'
+      have hseed := (hok.start rfl).2.1
+      have := (mem_elements s d).1 hseed
+      exact start_gt_one h hall ht' rfl hgt (hr d this.1 this.2)
 
 end DSymVerif.DS
